@@ -115,9 +115,11 @@ def check(ctx):
         raced = _note_race(p, allp)
         outs = {k: os.path.join(wd, k + ".ndjson") for k in ("server", "range", "prefix")}
         _split(allp, outs)
-        runner.run_job(ctx, _job(ctx, "conc-server", "ServerTrace", outs["server"], _rerun(args, True, "server"), attempts=4, boundary=lambda e: False))
-        runner.run_job(ctx, _job(ctx, "conc-range", "RangeTrace", outs["range"], _rerun(args, True, "range"), attempts=4))
-        runner.run_job(ctx, _job(ctx, "conc-prefix", "PrefixTrace", outs["prefix"], _rerun(args, True, "prefix"), attempts=4))
+        for j in (_job(ctx, "conc-server", "ServerTrace", outs["server"], _rerun(args, True, "server"), attempts=4, boundary=lambda e: False),
+                  _job(ctx, "conc-range", "RangeTrace", outs["range"], _rerun(args, True, "range"), attempts=4),
+                  _job(ctx, "conc-prefix", "PrefixTrace", outs["prefix"], _rerun(args, True, "prefix"), attempts=4)):
+            runner.run_job(ctx, j)
+            runner.run_disc(ctx, j)
         # the schedule of the weakened model (lock per IA_PD), imposed through the observation points
         sargs = ["-mode", "sched"]
         t = os.path.join(wd, "sched.ndjson")
@@ -138,7 +140,9 @@ def check(ctx):
                                       env={"GORACE": "halt_on_error=0 exitcode=66"}, ok_codes=(0, 66))
                 _note_race(pp, out)
             rer(ctx, None, t)
-            runner.run_job(ctx, _job(ctx, name, module, t, rer, attempts=4))
+            jj = _job(ctx, name, module, t, rer, attempts=4)
+            runner.run_job(ctx, jj)
+            runner.run_disc(ctx, jj)
         c = {"concurrent_rounds_16_goroutines": rounds, "race_detector_reports": 1 if raced else 0, "file_swaps_during_load": 0, "datagrams": 0,
              "range_linearized_requests": 0, "prefix_messages": 0, "schedules_imposed": 0, "schedules_refused_by_lock": 0}
         for line in open(outs["server"]):
